@@ -137,6 +137,17 @@ def exhaustive(tier):
             for var in ("7", "8"):
                 yield {"levels": list(levels), "fenv": fenv, "node": odd, "var": var, "var2": "7" if var == "8" else "9", "sibling_var": None, "decl": "explicit",
                        "ops": [{"op": "load_tree", "value": 3, "with_sibling": True}]}
+    # every scalar field kind (and every on-disk encoding it has) x variable texts that look like that kind's on-disk form,
+    # like a value of another kind, or like nothing at all: the field's value is the VALIDATED text, never a decoded one
+    texts = ["cafe", "hello", "aGVsbG8=", "00ff", "42", "4.5", "true", "no", "10.0.0.1", "10.0.0.0/8", "host.example", "http://h.example/p", "debug", " padded ", "zz=="]
+    leaf = lambda kind, **opts: {"kind": kind, "req": False, "validator": None, "opts": opts, "default": {"mode": "none"}}
+    nodes = [leaf("bytes", encoding="hex"), leaf("bytes", encoding="base64"), leaf("str"), leaf("str", transform_case="upper", transform_strip=True), leaf("int"), leaf("float"),
+             leaf("port"), leaf("bool"), leaf("ipv4"), leaf("ipv4net"), leaf("host"), leaf("url"), leaf("loglevel"), leaf("secure", method="xor"), leaf("challenge", alg="sha256")]
+    for nd in nodes:
+        for text in texts:
+            for levels, fenv in (([True], None), ([None, True], None), ([None], "CCV_NAMED")):
+                yield {"levels": list(levels), "fenv": fenv, "node": nd, "var": text, "var2": texts[(texts.index(text) + 1) % len(texts)], "sibling_var": None, "decl": "explicit",
+                       "ops": [{"op": "load_tree", "value": None, "with_sibling": True}]}
     for depth in (1, 2, 3):
         for levels in itertools.product(SCHEMA_ENVS, repeat=depth):
             for fenv in FIELD_ENVS:
